@@ -11,6 +11,8 @@ A tree entry is a dict
   flag  : bool — store the member name with the UTF-8 flag (needs valid UTF-8)
   explicit : bool — for dirs: emit an explicit directory member
   mode  : int — for files
+  form  : str — for metadata members (link files, side-cars, gophermaps, HTML titles, templates): the
+          content form (FORMS below: line-ending convention, odd bytes, long lines ...) `data` is written in
 """
 
 MBOX = ("From alice@example.com Mon Jan  1 00:00:00 2024\nSubject: one\n\nbody one\n\n"
@@ -629,7 +631,7 @@ def is_metadata(path):
     """members whose CONTENT decides how a menu / an info block looks"""
     parts = path.split("/")
     n = parts[-1]
-    return (n in (".names", ".Links", "gophermap", ".abstract") or n.endswith((".abstract", ".html", ".gophermap"))
+    return (n in (".names", ".Links", "gophermap", ".abstract") or n.endswith((".abstract", ".html", ".gophermap", ".tal"))
             or (len(parts) >= 2 and parts[-2] == ".cap"))
 
 
@@ -689,11 +691,11 @@ def form_rotation(rng):
     return out
 
 
-def apply_forms(ents, rng, rotation=None):
+def apply_forms(ents, rng, rotation=None, classes=None):
     """Rewrite the metadata members of a tree directory by directory: everything that shapes the menu of
-    one directory is put into ONE content form (entry key 'form'), the forms are dealt out in rotation.
-    Documents are left alone."""
-    rot = rotation or form_rotation(rng)
+    one directory is put into ONE content form (entry key 'form'), the forms are dealt out in rotation
+    (only those of the given classes).  Documents are left alone."""
+    rot = rotation or [f for f in form_rotation(rng) if classes is None or FORM_CLASS[f] in classes]
     by_dir = {}
     k = 0
     for e in ents:
@@ -743,6 +745,9 @@ def forms_tree(rng, forms=None):
         ents.append({"path": join(d, "three.html"), "kind": "file", "flag": False,
                      "data": to_raw("<html>\n<head>\n<title>Title of three\nover two lines &amp; more</title>\n</head>\n"
                                     "<body>\nthree\n</body>\n</html>\n")})
+        ents.append({"path": join(d, "page.html.tal"), "kind": "file", "flag": False,
+                     "data": to_raw("<html><head><title>A template</title></head>\n<body>\n<p tal:content=\"selector\">sel</p>\n"
+                                    "<p>second paragraph of it</p>\n</body>\n</html>\n")})
         ents.append({"path": join(d, "gm"), "kind": "dir", "explicit": False, "flag": False})
         ents.append({"path": join(d, "gm/x.txt"), "kind": "file", "data": "x\n", "flag": False})
         ents.append({"path": join(d, "gm/gophermap"), "kind": "file", "flag": False,
@@ -753,6 +758,45 @@ def forms_tree(rng, forms=None):
                 e["form"] = form
                 e["data"] = in_form(e["data"], form, rng, sidecar=e["path"].endswith(".abstract"))
     return ents
+
+
+EXOTIC_ORDER = ["newline", "long-line", "bytes", "bytes-at-eof", "bounded-read", "unicode-linebreak"]
+
+
+def template_class(form):
+    """a template is read as one text: what matters is the line terminators and how the text ends"""
+    spec = FORM_SPEC[form]
+    if any("\r" in t for t in spec.get("term", [])):
+        return "newline"
+    if spec.get("eof"):
+        return "bytes-at-eof"
+    return FORM_CLASS[form]
+
+
+def form_class_near(tree, p):
+    """class of the content form(s) that can show in the answer for member path `p`: the metadata of `p`
+    itself when it is a directory (link file, .cap, side-cars of its documents), of the directories in it
+    (their .abstract describes them in p's menu) and of the directory `p` lives in.  When several forms
+    meet, the one furthest from plain text names the case."""
+    flat = flatten(tree)
+    dirs = {e["path"] for e in flat if e["kind"] == "dir"} | {""}
+    near = set()
+    if p in dirs:
+        near.add(p)
+        near.update(d for d in dirs if d and (d.rsplit("/", 1)[0] if "/" in d else "") == p)
+    if p:
+        near.add(p.rsplit("/", 1)[0] if "/" in p else "")
+    classes = set()
+    for e in flat:
+        if e.get("form") and e["form"] != "lf" and meta_dir(e["path"]) in near:
+            if e["path"].endswith(".tal"):
+                if e["path"] == p:
+                    return "template:" + template_class(e["form"])
+                continue
+            classes.add(FORM_CLASS[e["form"]])
+    if not classes:
+        return None
+    return max(classes, key=EXOTIC_ORDER.index)
 
 
 def form_of_dir(tree, d):
